@@ -17,7 +17,7 @@ mkdir -p .build evidence replays
 # the tie by translation of the per-metric types (same reason for keeping it out of the library root; reported by C20)
 (cd lean && LEAN_NUM_THREADS=16 lake build CvssVerif.Props.SrcTab) || echo "setup: Props/SrcTab.lean does not check against /repo's current metric types (reported by the check of C20)"
 # the tie by translation of the decoders, encoders and validity checks (reported by C07-C12)
-(cd lean && LEAN_NUM_THREADS=16 lake build CvssVerif.Props.SrcDec) || echo "setup: Props/SrcDec.lean does not check against /repo's current decoders (reported by the checks of C07-C12)"
+(cd lean && LEAN_NUM_THREADS=16 lake build CvssVerif.Props.SrcDec CvssVerif.Props.SrcAll) || echo "setup: Props/SrcDec.lean does not check against /repo's current decoders (reported by the checks of C07-C12)"
 cp /repo/go.sum go/harness/go.sum
 (cd go/harness && { GOCACHE="$PWD/../../.build/gocache" CGO_ENABLED=0 go build -tags verif -o ../../.build/harness . || GOCACHE="$PWD/../../.build/gocache" CGO_ENABLED=0 go build -o ../../.build/harness . ; })
 echo "setup ok"
